@@ -819,7 +819,7 @@ func runC06(c *Ctx) error {
 			{kind: "between-calls", window: 0},
 			{kind: "final-handler-fault", window: 25, faults: true},
 		}
-		n := c.N(700, 30000)
+		n := c.N(2500, 60000)
 		for i := 0; i < n; i++ {
 			g := gens[i%len(gens)]
 			if i%100 == 99 {
